@@ -129,8 +129,8 @@ Qed.
 
 Lemma build_d4_graph_ext toks n : build_d4_graph rc o1 toks n = build_d4_graph rc o2 toks n.
 Proof.
-  unfold build_d4_graph. destruct (d4_lines _ _ _ _); [|reflexivity].
-  destruct (N.leb _ _); [reflexivity|]. destruct (negb _); [reflexivity|].
+  unfold build_d4_graph. destruct (d4_lines _ _ _); [|reflexivity].
+  destruct (negb _); [reflexivity|].
   destruct (add_free _ _ _ _ _) as [[root s1]|]; [|reflexivity].
   destruct (pass2 _ _); [|reflexivity]. now rewrite pass3_ext.
 Qed.
